@@ -81,11 +81,11 @@ Table(c) ==
                                    build |-> BuildThreshold(NP), recv |-> ReceiveThreshold(NP)]]]
 
 VARIABLE todo
-MBTInit == todo = Configs /\ cfg = <<1, 1>> /\ exp = [k |-> "created"] /\ out = "units" /\ vst = NoSession
+MBTInit == todo = Configs /\ cfg = <<1, 1>> /\ exp = [k |-> "created"] /\ out = "units" /\ vst = NoSession /\ calls = <<>>
 MBTNext ==
   /\ todo # {}
   /\ LET c == CHOOSE x \in todo : TRUE
      IN /\ PrintT(ToJson(Table(c)))
         /\ todo' = todo \ {c}
-  /\ UNCHANGED <<cfg, exp, out, vst>>
+  /\ UNCHANGED <<cfg, exp, out, vst, calls>>
 =============================================================================
